@@ -264,8 +264,29 @@ def design_check(tier, cov):
                                       f"violated, got {res.invariant_violated} {res.error}")
 
 
+def _corrupt(ok, how):
+    '''binding demonstration: corrupt one recorded field of the first stable
+    case (PV_C03_CORRUPT=eq flips a text-equality flag, =drop removes one item
+    of the last skeleton, =dup records one item twice)'''
+    for r in ok:
+        case = r["case"]
+        if all(case["eq"]) and not case["fail"] and len(case["sk"][-1]) > 3:
+            if how == "eq":
+                case["eq"][-1] = False
+                case["diff"][-1] = [1, "corrupted", "record"]
+            elif how == "drop":
+                del case["sk"][-1][2]
+            else:
+                case["tab"].append(dict(case["tab"][case["sk"][-1][2] - 1], n=99))
+                case["sk"][-1].insert(3, len(case["tab"]))
+            r["texts"] = None
+            return r["id"]
+    raise core.MachineryError("nothing to corrupt")
+
+
 def run(tier, only=None):
     core.setup_psyclone_env()
+    only = only or os.environ.get("PV_C03_ONLY")
     out = core.Outcome("C03", tier, "exploration", matchers=MATCHERS)
     cov = {"states": 0, "transitions": 0, "traces_validated_against_impl": 0,
            "samples": [], "exhaustive": False}
@@ -293,6 +314,10 @@ def run(tier, only=None):
     by_id = {r["id"]: r for r in ok}
     if len(by_id) != len(ok):
         raise core.MachineryError("duplicate case ids")
+    corrupted = None
+    if os.environ.get("PV_C03_CORRUPT"):
+        corrupted = _corrupt(ok, os.environ["PV_C03_CORRUPT"])
+        print(f"[C03] corrupted the record of case {corrupted}")
     verdicts, diverges, states, trans = validate([r["case"] for r in ok])
     cov["states"] += states
     cov["transitions"] += trans
@@ -318,7 +343,7 @@ def run(tier, only=None):
         failing[v["id"]] = failing.get(v["id"], 0) + 1
         out.violation(slim, v["v"], det)
     unstable = [r["id"] for r in ok if not all(r["case"]["eq"]) or r["case"]["fail"]]
-    missed = [i for i in unstable if i not in failing]
+    missed = [i for i in unstable if i not in failing and i != corrupted]
     if missed:
         raise core.MachineryError(f"text differs but no verdict for {missed[:5]}")
     kinds = sorted({k for r in ok for k in r["kinds"]})
